@@ -591,7 +591,7 @@ def e2d(ctx) -> None:
             ctx.check(ok, "E2d", fn, node, f"{fn.short} :: {norm(node)}", f"table lookup {norm(node)} is keyed by a value that can come from token / JWK data and is not "
                       "guarded by a membership test or a KeyError handler (unknown value escapes as KeyError, unhashable as TypeError)",
                       "membership test / handler / literal keys", construct=f"unguarded lookup {norm(node)}")
-    ctx.count("E2d", n, 8, "table lookups keyed by mapping members / parameters in consume-reachable code")
+    ctx.count("E2d", n, 3, "table lookups keyed by mapping members / parameters in consume-reachable code")
 
 
 def e2f(ctx) -> None:
@@ -658,7 +658,7 @@ def e2f(ctx) -> None:
                     how = "dominated by isinstance(…, str)"
             ctx.check(ok, "E2f", fn, node, f"{fn.short} :: {norm(node)}", f"`{norm(node)}` hashes the JSON member {member!r} without it being known to be a string: a list / object value "
                       "escapes as TypeError (unhashable)", how or "isinstance(value, str) first", construct=f"unhashable member in {norm(node)[:60]}")
-    ctx.count("E2f", n, 4, "membership tests of JWK members against hash tables")
+    ctx.count("E2f", n, 1, "membership tests of JWK members against hash tables")
 
 
 def _literal_keys_ok(eng, fn: FunctionInfo, node: ast.Subscript) -> bool:
